@@ -163,6 +163,26 @@ func c07Ops() []c07Op {
 		{"a minute passes", func(g *rig, m *c07Model) (bool, error) {
 			return true, nil // handled by the scheduler (virtual time advances in 10 ms steps)
 		}},
+		{"N1 itself creates a child K2 (edge points role + node type, no tombstone point, origin N1)", func(g *rig, m *c07Model) (bool, error) {
+			// what a device client does for the inputs it discovers (client.SendNode with its own id as origin: the
+			// edge batch of a brand-new child with an edge-point field carries no tombstone point)
+			if _, ok := m.typ["N1"]; !ok {
+				return false, nil
+			}
+			if _, exists := m.edges[[2]string{"N1", "K2"}]; exists {
+				return false, nil
+			}
+			if err := g.points("K2", data.Point{Type: "description", Text: "kid2", Origin: "N1"}); err != nil {
+				return true, err
+			}
+			pts := data.Points{{Type: "role", Text: "own", Time: g.tick(), Origin: "N1"}, {Type: data.PointTypeNodeType, Text: "vKid", Origin: "N1"}}
+			if err := client.SendEdgePoints(g.inst.Nc, "K2", "N1", pts, true); err != nil {
+				return true, err
+			}
+			m.edges[[2]string{"N1", "K2"}] = false
+			m.typ["K2"] = "vKid"
+			return true, nil
+		}},
 	}
 }
 
@@ -510,12 +530,12 @@ func TestC07(t *testing.T) {
 		defer r.Explore(mc.Config{Name: "stop-with-late-operation-d2", Serial: true, SplitDepth: 3, DevBound: 2,
 			Rule: "start state as before; all pairs of operations over 4 (create N2 under P, create N1 under the root, unrelated node created, add a child to N1), each returning as soon as it is acknowledged; the second is issued k scheduler steps after the first (k = 0..40: one deviation), Manager.Stop before any later step (one deviation), another ready case in the manager's select (one deviation); at most 2 deviations per execution; deliveries strictly oldest first (so that the operation and the scan it races with advance in turns); same oracle"},
 			c07StopBody(t, 2, true, lateOps, true, true))
-		kids := []int{9, 10, 11, 5, 4, 13}
+		kids := []int{9, 10, 11, 5, 4, 13, 14}
 		defer r.Explore(mc.Config{Name: "child-churn-d3", Serial: true, SplitDepth: 2, DevBound: 0,
-			Rule: "start state {group G, vNode N1 under G, custom parent P}; all histories of 3 operations over 6 (add / remove / re-add a child of N1 — the re-add is a bare tombstone=0 edge point —, point update, delete / undelete N1, a minute passes); same oracles (the client's children must be the node's live children)"},
+			Rule: "start state {group G, vNode N1 under G, custom parent P}; all histories of 3 operations over 7 (add / remove / re-add a child of N1 — the re-add is a bare tombstone=0 edge point —, N1 creating a child itself with origin N1 and no tombstone point in the edge batch, point update, delete / undelete N1, a minute passes); same oracles (the client's children must be the node's live children)"},
 			c07Body(t, 3, 0, true, kids, false))
 		r.Explore(mc.Config{Name: fmt.Sprintf("histories-d%d-dev%d", depth, dev), Serial: true, SplitDepth: 3, DevBound: dev, SelfCheckEvery: 97,
-			Rule: fmt.Sprintf("all histories of %d operations over 14 (create/delete/undelete a vNode under the root, under a group, under a custom parent type; mirror it under a second parent; delete/undelete the containing group; add/remove a child; point update; a minute passes), each operation followed by a run to quiescence; up to %d timing deviations per execution (manager started after the first operation; next operation issued without waiting for quiescence); then two rescan periods, and the oracles: never two clients per placement, running set = reference set = set started by a fresh manager, client config = store content, Stop returns", depth, dev)},
+			Rule: fmt.Sprintf("all histories of %d operations over 15 (create/delete/undelete a vNode under the root, under a group, under a custom parent type; mirror it under a second parent; delete/undelete the containing group; add/remove a child; a child created by the client's node itself; point update; a minute passes), each operation followed by a run to quiescence; up to %d timing deviations per execution (manager started after the first operation; next operation issued without waiting for quiescence); then two rescan periods, and the oracles: never two clients per placement, running set = reference set = set started by a fresh manager, client config = store content, Stop returns", depth, dev)},
 			c07Body(t, depth, dev, false, nil, false))
 		r.Assume("message delivery inside one step follows the Go scheduler (GOMAXPROCS=1 per shard); timing deviations are enumerated at operation granularity, not per message")
 		r.Assume("time is virtual (testing/synctest): timeouts fire only when nothing else can run")
@@ -526,7 +546,7 @@ func init() {
 	bodies["C07/histories-d3-dev1"] = func(t *testing.T) mc.Body { return c07Body(t, 3, 1, false, nil, false) }
 	bodies["C07/histories-d4-dev2"] = func(t *testing.T) mc.Body { return c07Body(t, 4, 2, false, nil, false) }
 	churn := []int{2, 3, 4, 5, 11, 12, 13, 0}
-	bodies["C07/child-churn-d3"] = func(t *testing.T) mc.Body { return c07Body(t, 3, 0, true, []int{9, 10, 11, 5, 4, 13}, false) }
+	bodies["C07/child-churn-d3"] = func(t *testing.T) mc.Body { return c07Body(t, 3, 0, true, []int{9, 10, 11, 5, 4, 13, 14}, false) }
 	bodies["C07/group-churn-slow-clients-d4"] = func(t *testing.T) mc.Body { return c07Body(t, 4, 0, true, churn, true) }
 	stopOps := []int{0, 1, 7, 3, 2, 5, 4, 9, 11, 12}
 	bodies["C07/stop-at-every-point-d2"] = func(t *testing.T) mc.Body { return c07StopBody(t, 2, true, stopOps, true, false) }
